@@ -16,19 +16,24 @@ def run(prop, tier, seed):
     wd = vlib.workdir(prop)
     mod = os.path.join(vlib.SPEC, "props", "C33.tla")
     maxfill = 1 if tier == "quick" else 4
-    env = dict(frontlib.TLC_ENV, MAXFILL=maxfill, OBS=os.devnull)
-    gen = vlib.tlc(mod, env=env, metadir=os.path.join(wd, "meta_g"), timeout=900)
+    quick = "1" if tier == "quick" else "0"
+    env = dict(frontlib.TLC_ENV, MAXFILL=maxfill, QUICK=quick, OBS=os.devnull)
+    gen = vlib.tlc(mod, env=env, metadir=os.path.join(wd, "meta_g"), xmx=frontlib.XMX, timeout=900)
     vlib.tlc_ok(gen, mod)
     cases = gen.cases()
     if not cases or gen.distinct != len(cases):
         raise vlib.ToolError("generator emitted %d cases for %d states" % (len(cases), gen.distinct))
     hcases = [{"id": c["id"], "mode": "lsp", "offsets": [], "forget": False,
                "files": {"main.abra": frontlib.assemble(c["parts"])}} for c in cases]
-    obs, hwall = vlib.run_harness(hcases, wd, jobs=14, timeout=20)
+    obs, hwall = vlib.run_harness(hcases, wd, jobs=frontlib.JOBS, timeout=20)
+    confirmed, flaky, _, w2 = frontlib.confirm_crashes(hcases, obs, wd, ("lsp",))       # machine load must not look like a crash
+    hwall += w2
     byid = {c["id"]: (c, h, o) for c, h, o in zip(cases, hcases, obs)}
 
     def main_diags(o):
-        return [{"msg": d["msg"], "start": d["start"], "end": d["end"]} for d in o.get("diags") or [] if d.get("file") == "main.abra"]
+        # in source order: the order of the error list itself is not part of the property (and varies between runs)
+        ds = [{"msg": d["msg"], "start": d["start"], "end": d["end"]} for d in o.get("diags") or [] if d.get("file") == "main.abra"]
+        return sorted(ds, key=lambda d: (d["start"], d["end"], d["msg"]))
 
     rows = []
     no_analysis = 0
@@ -43,8 +48,8 @@ def run(prop, tier, seed):
 
     obs_path = os.path.join(wd, "obs_summary.ndjson")
     vlib.write_ndjson(obs_path, rows)
-    val = vlib.tlc(mod, cfg=mod[:-4] + "v.cfg", env=dict(frontlib.TLC_ENV, MAXFILL=maxfill, OBS=obs_path),
-                   metadir=os.path.join(wd, "meta_v"), timeout=900)
+    val = vlib.tlc(mod, cfg=mod[:-4] + "v.cfg", env=dict(frontlib.TLC_ENV, MAXFILL=maxfill, QUICK=quick, OBS=obs_path),
+                   metadir=os.path.join(wd, "meta_v"), xmx=frontlib.XMX, timeout=900)
     vlib.tlc_ok(val, mod + " (validation)")
     if val.distinct != len(rows):
         raise vlib.ToolError("validation covered %d of %d observations" % (val.distinct, len(rows)))
@@ -77,7 +82,7 @@ def run(prop, tier, seed):
         "contexts": len({c["context"] for c in cases}), "variants": len({c["v"] for c in cases}),
         "inputs_by_template": dict(collections.Counter(c["template"] for c in cases)),
         "tlc_states_generator": gen.distinct, "observations_validated_by_tlc": val.distinct,
-        "analysis_crashed_skipped": no_analysis, "diagnostics_in_other_files_ignored": other_file_diags,
+        "analysis_crashed_skipped": no_analysis, "crashes_not_reproduced": flaky, "diagnostics_in_other_files_ignored": other_file_diags,
         "violating_inputs_by_key": dict(keycount), "harness_wall_s": round(hwall, 1),
         "samples": [{"id": h["id"], "files": h["files"]} for c, h in zip(cases, hcases) if c["dbytes"] != c["dchars"]][:3],
     }
